@@ -511,9 +511,16 @@ fn c13_push_bag() {
     GWORD = epoch_word(&c.global.epoch); G_MODE = 1; G_BUDGET = budget();
     let n: usize = kani::any(); kani::assume(n <= 2);
     let mut bag = bag_with(2, n, 0);
-    let guard = unprotected();
+    // the pusher is a real participant pinned one epoch behind, whose cached pin epoch is older still:
+    // neither may end up as the seal
+    let l_store = ManuallyDrop::new(mk_local(c, 2));
+    let l: &Local = &l_store;
+    l.guard_count.set(1);
+    set_raw_epoch(&l.epoch, g.wrapping_sub(2) | 1);
+    l.prev_epoch.set(crate::ebr_impl::epoch::verif_epoch::mk(g.wrapping_sub(6) | 1));
+    let with_participant: bool = kani::any();
+    let guard = ManuallyDrop::new(if with_participant { Guard { local: l } } else { unprotected() });
     c.global.push_bag(&mut bag, &guard);
-    core::mem::forget(guard);
     assert!(Q_PUSHES == 1, "C15.push_bag.exactly_one_push");
     let sb = pushed_bag(0);
     assert!(sb._bag.0.len() == n, "C15.push_bag.content_moves_intact");
@@ -577,7 +584,10 @@ fn c15_defer() {
     let c: &'static Collector = leak(Collector::new());
     let l_store = ManuallyDrop::new(mk_local(c, 2));
     let l: &Local = &l_store;
-    l.guard_count.set(1); set_raw_epoch(&l.epoch, 1);
+    let ge: usize = kani::any(); kani::assume(ge & 1 == 0 && ge >= 2);
+    set_raw_epoch(&c.global.epoch, ge);
+    let announced = ge.wrapping_sub(2) | 1;                  // pinned one epoch behind the clock
+    l.guard_count.set(1); set_raw_epoch(&l.epoch, announced);
     let n: usize = kani::any(); kani::assume(n <= 2);
     *l.bag.get() = bag_with(2, n, 0);
     let ac: usize = kani::any(); l.advance_count.set(ac);
@@ -592,6 +602,7 @@ fn c15_defer() {
     }
     assert!(EXEC_N == 0, "C13.defer.runs_nothing");
     assert!(COLLECTS == 0, "C07.defer.never_collects_reentrantly");   // deferred functions never run on top of the deferring frame
+    assert!(raw_epoch(&l.epoch) == announced, "C13.defer.keeps_the_announced_epoch_inside_a_critical_section");
     assert!(l.advance_count.get() == ac.wrapping_add(1) && ADVANCES == (ac.wrapping_add(1) % Local::COUNTS_BETWEEN_ADVANCE == 0) as u32, "C15.defer.periodic_advance_attempt");
     // conservation: run what is in the local bag now: the new function is the last one
     let k = bag.0.len();
